@@ -119,7 +119,15 @@ func getBoolParam(m map[string]interface{}, prop string, required bool) (bool, b
 	case bool:
 		return vv, true, nil
 	case string:
-		return strings.ToLower(vv) == "true", true, nil
+		// (What isn't "true" used to be false without a word:
+		// inherited=yes searched the location alone.)
+		switch strings.ToLower(vv) {
+		case "true":
+			return true, true, nil
+		case "false":
+			return false, true, nil
+		}
+		return false, true, fmt.Errorf("Parameter %s should be true or false, not %q", prop, vv)
 	default:
 		return false, true, fmt.Errorf("Parameter %s type %T wrong", prop, v)
 	}
